@@ -8,55 +8,55 @@ V = os.path.dirname(os.path.dirname(os.path.abspath(__file__)))
 TECH = "deterministic simulation with fault injection: whole workflow program run on a seeded cooperative scheduler / simulated fs+shell+clock; "
 
 CLAIMED = {
- "C01": dict(level="fault_enumeration", tech=TECH + "for each sampled schedule every distinct crash state (fs after each journalled mutation) is enumerated and checked; one or two command failures (exit before/partial/after, signal, omitted output, && list whose middle step fails) injected from the tape; FileSplitter and a second file system (EXDEV) among the shapes; round 5: streaming pairs under the enumeration, consumers that close the stream early (EPIPE, 128+SIGPIPE); round 6: a command that omits a declared output counts as a failed task, very long command lines, splitter parts predicted from the input alone, Go-level writes as scheduling points",
+ "C01": dict(level="fault_enumeration", tech=TECH + "for each sampled schedule every distinct crash state (fs after each journalled mutation) is enumerated and checked; one or two command failures (exit before/partial/after, signal, omitted output, && list whose middle step fails) injected from the tape; FileSplitter and a second file system (EXDEV) among the shapes; round 5: streaming pairs under the enumeration, consumers that close the stream early (EPIPE, 128+SIGPIPE); round 6: a command that omits a declared output counts as a failed task, very long command lines, splitter parts predicted from the input alone, Go-level writes as scheduling points; round 7: Go functions through sp.ExecCmd and with SetOut-only ports, outputs named *.log",
      text="Per sampled (workflow, schedule, optional command failure) the list of distinct durable states a kill can leave is enumerated completely and each is checked: a file at a declared final path implies an earlier exit(0) of its task and complete bytes; all other new files are audit/log/extra files or below _scipipe_tmp*. Exhaustive along each schedule, sampled across schedules and workflows.",
      note="Crash model: process group killed between two file-system calls (completed calls persist). Trusted: simulator fs/shell, reference model. Parent-relative/absolute outputs only with existing destination directory.", ref="9 C01"),
- "C02": dict(level="exploration", tech=TECH + "seeded search over workflows x subsets of pre-existing output files (arbitrary bytes) x schedules, plus the history run/run-again; oracle on execution trace, (inode, mtime, bytes) and reference evaluated with the pre-existing bytes; round 5: windows of EMFILE on descriptor-opening calls (safety clauses only), outputs whose path equals the input path; round 6: twin instances re-running a finished workflow concurrently, long default output names, out-ports made by SetOut only",
+ "C02": dict(level="exploration", tech=TECH + "seeded search over workflows x subsets of pre-existing output files (arbitrary bytes) x schedules, plus the history run/run-again; oracle on execution trace, (inode, mtime, bytes) and reference evaluated with the pre-existing bytes; round 5: windows of EMFILE on descriptor-opening calls (safety clauses only), outputs whose path equals the input path; round 6: twin instances re-running a finished workflow concurrently, long default output names, out-ports made by SetOut only; round 7: nothing of its own (three round-7 changes caught by existing clauses and by C11)",
      text="Each sampled case places a tape-chosen subset of outputs on disk (or re-runs a completed workflow) and checks: no command of a task with a pre-existing output starts, pre-existing files keep inode/mtime/bytes, downstream results equal the reference computed from the pre-existing bytes.",
      note="Subsets that split a multi-output task are checked for the two safety clauses only (the property promises nothing about consumers of the absent sibling).", ref="9 C02"),
- "C03": dict(level="fault_enumeration", tech=TECH + "every distinct crash state of each sampled schedule is a kill point; history kill / cleanup / re-run executed for each, plus tape-chosen re-run without cleanup and nested crash during recovery; round 5: Go-function tasks, and crashing runs that start from results deleted while their audit files stayed; round 6: a Go-function consumer behind the Concatenator",
+ "C03": dict(level="fault_enumeration", tech=TECH + "every distinct crash state of each sampled schedule is a kill point; history kill / cleanup / re-run executed for each, plus tape-chosen re-run without cleanup and nested crash during recovery; round 5: Go-function tasks, and crashing runs that start from results deleted while their audit files stayed; round 6: a Go-function consumer behind the Concatenator; round 7: tagging components inside the crash histories (known findings F-C03-4 torn audit re-write, F-C03-5 sibling of a tagger)",
      text="For each sampled (workflow, schedule) every distinct crash state is recovered from (cleanup + re-run) and compared with the uninterrupted reference result; inode/mtime of already-final files and the re-run's execution trace are checked. One known finding (F-C03-1) is matched by a structural signature and reported as KNOWN-FINDING; two defects (F-C03-2, F-C03-3) were repaired.",
      note="Crash model as C01. Cleanup = removing entries named _scipipe_tmp* and FIFOs, as the statement says.", ref="9 C03"),
- "C04": dict(level="exploration", tech=TECH + "seeded search over workflows x schedules x map orders x durations; oracle = independent reference evaluation (task multiset, file contents, per-edge delivery); round 5: Go-function nodes whose parameters are read only by the function, the empty string as a parameter value; round 6: numeric parameter values through FromInt/FromFloat, CommandToParams sources, connections through OutPort.To (api stream)",
+ "C04": dict(level="exploration", tech=TECH + "seeded search over workflows x schedules x map orders x durations; oracle = independent reference evaluation (task multiset, file contents, per-edge delivery); round 5: Go-function nodes whose parameters are read only by the function, the empty string as a parameter value; round 6: numeric parameter values through FromInt/FromFloat, CommandToParams sources, connections through OutPort.To (api stream); round 7: FileToParamsReader sources, parameter values differing in case only, a task-count clause under default names",
      text="Every sampled (workflow, configuration, schedule) is executed completely on the simulator and compared with an independent reference evaluation: multiset of executed tasks, bytes of every output, per-edge delivery counts. One case in eight instead runs the workflow with scipipe's default output names twice, on two fresh directories under two schedules, and compares what was produced (no reference needed). Sampling, not proof. One known finding (F-C04-1: with default names a tagger's tag enters a sibling consumer's file name or not, depending on timing) is matched structurally and reported as KNOWN-FINDING.",
      note="Trusted: the simulator's channel/select/mutex semantics (re-implemented to the Go spec), the in-memory fs, the mini shell, the reference model. Fan-in only into single-port processes; zipped ports have equal lengths; bufsize>=1.", ref="9 C04"),
- "C05": dict(level="exploration", tech=TECH + "deadlock = no runnable goroutine and no timer (exact, no time-outs); early return checked on the snapshot taken by the workflow program right after Run returns; round 5: commands that print 70-300 KB without newline, commands that leave 60/1100 scratch files; round 6: Go-function tasks, nested workflows, an extra file that cannot be moved out",
+ "C05": dict(level="exploration", tech=TECH + "deadlock = no runnable goroutine and no timer (exact, no time-outs); early return checked on the snapshot taken by the workflow program right after Run returns; round 5: commands that print 70-300 KB without newline, commands that leave 60/1100 scratch files; round 6: Go-function tasks, nested workflows, an extra file that cannot be moved out; round 7: several processes without out-ports, dotted process names",
      text="Liveness is decided exactly per sampled schedule (the scheduler knows the runnable set), safety on the fs/command state at the return instant. Sampling over graphs, buffer/slot settings and schedules.",
      note="Trusted: simulator and reference as for C04. Workflows with streaming outputs are excluded (C17).", ref="9 C05"),
- "C06": dict(level="exploration", tech=TECH + "step invariant: sum of cores over commands between start and exit <= maxConcurrentTasks, evaluated after every simulator step; round 6: a second, smaller workflow in the same program counted against its own bound; FileSplitter under full slots",
+ "C06": dict(level="exploration", tech=TECH + "step invariant: sum of cores over commands between start and exit <= maxConcurrentTasks, evaluated after every simulator step; round 6: a second, smaller workflow in the same program counted against its own bound; FileSplitter under full slots; round 7: exec.Cmd.WaitDelay in the shim, background helpers that hold the output pipe counted with their task, late outputs, custom log file",
      text="The simulator sees every command start and exit, so slot usage is exact at every step of every sampled schedule (not a lower bound from wall-clock intervals).",
      note="Sampled workflows/schedules; mixed CoresPerTask 1..max; skipped tasks interleaved.", ref="9 C06"),
- "C07": dict(level="exploration", tech=TECH + "barrier commands (complete only if k commands are inside simultaneously) + simulator deadlock detection; token-by-token acquisition interleaved by the scheduler; oversize-cores rejection; round 5: Go-function tasks under contention, a Go-function task that runs a nested workflow while holding outer slots; round 6: rendezvous groups of Go-function tasks",
+ "C07": dict(level="exploration", tech=TECH + "barrier commands (complete only if k commands are inside simultaneously) + simulator deadlock detection; token-by-token acquisition interleaved by the scheduler; oversize-cores rejection; round 5: Go-function tasks under contention, a Go-function task that runs a nested workflow while holding outer slots; round 6: rendezvous groups of Go-function tasks; round 7: re-run of a partly finished workflow under multi-core contention; release wave timed on an idle machine (late-admission: 5 simulated s, legitimate code needs 0)",
      text="Work conservation is decided by rendezvous commands under exact deadlock detection (admission into empty slots, a staggered rendezvous, and a release wave after a wide task returns its slots at once), contention by scheduling every individual token deposit / mutex operation, rejection of oversize processes by exit status and trace.",
      note="Sampled configurations and schedules.", ref="9 C07"),
- "C08": dict(level="exploration", tech=TECH + "recorder components on out-port edges; command durations over 6 orders of magnitude so completion order differs from arrival order; round 5: sources listing files in permuted order through FileCombinator (arrival order kept on every out-port); round 6: tagging components with recorders, taggers that leave some files untagged",
+ "C08": dict(level="exploration", tech=TECH + "recorder components on out-port edges; command durations over 6 orders of magnitude so completion order differs from arrival order; round 5: sources listing files in permuted order through FileCombinator (arrival order kept on every out-port); round 6: tagging components with recorders, taggers that leave some files untagged; round 7: a listed file that does not exist between ordered items",
      text="Recorded per-edge sequences are compared with the reference order (or per-upstream projection for fan-in) under sampled schedules in which later tasks finish first.",
      note="Recorders are ordinary components built with the public API; they add a process per edge. Also recorded: FileSplitter parts, IPSelectorSync out-ports, several sub-stream carriers, a source that lists one file twice.", ref="9 C08"),
- "C09": dict(level="exploration", tech=TECH + "one or two injected failures per run (cmd-exit x3, cmd-signal, cmd-omit, cmd-list: && list whose middle step fails, bad-input x2) on tape-chosen tasks while siblings run; optional history: cleanup and second attempt with the same failure; round 5: failing command of a CommandToParams component, a parameter source nobody consumes, history start-again-in-place, producers killed by SIGPIPE; round 6: an output path that needs a tag the file does not carry, victims among tasks whose inputs differ only in the directory",
+ "C09": dict(level="exploration", tech=TECH + "one or two injected failures per run (cmd-exit x3, cmd-signal, cmd-omit, cmd-list: && list whose middle step fails, bad-input x2) on tape-chosen tasks while siblings run; optional history: cleanup and second attempt with the same failure; round 5: failing command of a CommandToParams component, a parameter source nobody consumes, history start-again-in-place, producers killed by SIGPIPE; round 6: an output path that needs a tag the file does not carry, victims among tasks whose inputs differ only in the directory; round 7: victims among several processes without out-ports",
      text="Exit status, absence of the completion marker, absence of the victim's outputs at final paths and absence of start events of transitive dependants are checked for each sampled (workflow, victim, failure kind, schedule).",
      note="Failure kinds are those the statement lists. One genuine defect (F-C09-1: failing CommandToParams command could end in exit 0) was found by the component-command shape and repaired.", ref="9 C09"),
- "C10": dict(level="exploration", tech=TECH + "audit files parsed strictly and compared recursively with the lineage tree of the independent reference evaluation; Command compared with every word the simulated shell actually received (incl. Process.Prepend launchers); round 5: the record ON DISK of every file that passed a tagging component must hold the tag; sibling outputs of one task tagged alike; round 6: stale longer audit files at output paths, the audit file must be ONE JSON document, per-cent signs on command lines, duration = finish - start and the interval contains the execution",
+ "C10": dict(level="exploration", tech=TECH + "audit files parsed strictly and compared recursively with the lineage tree of the independent reference evaluation; Command compared with every word the simulated shell actually received (incl. Process.Prepend launchers); round 5: the record ON DISK of every file that passed a tagging component must hold the tag; sibling outputs of one task tagged alike; round 6: stale longer audit files at output paths, the audit file must be ONE JSON document, per-cent signs on command lines, duration = finish - start and the interval contains the execution; round 7: parameters that are not on the command line, sibling of a tagger on an idle machine",
      text="For every finalized output of every sampled (workflow, schedule) the audit JSON is compared field by field, recursively to the source files, with the reference lineage; timing sanity checked on the simulated clock.",
      note="Ids and absolute times excluded. Tags: inherited tags must be present, extras only from tagging components (a sibling consumer may legally see or not see a tag attached concurrently). Forward-only simulated clock.", ref="9 C10"),
- "C11": dict(level="fault_enumeration", tech=TECH + "histories that split one workflow over several runs: RunTo-then-Run, kill at EVERY crash state of the sampled schedule + cleanup + re-run, delete-outputs + re-run, and up to four further rounds of delete-and-run-again inside ONE simulated process (library globals not re-initialised); nested ancestor records compared byte-for-byte (as JSON values) with the audit files on disk before the resume; round 6: two workflows built up front in one program and run in sequence (Stage), per-cent signs on command lines",
+ "C11": dict(level="fault_enumeration", tech=TECH + "histories that split one workflow over several runs: RunTo-then-Run, kill at EVERY crash state of the sampled schedule + cleanup + re-run, delete-outputs + re-run, and up to four further rounds of delete-and-run-again inside ONE simulated process (library globals not re-initialised); nested ancestor records compared byte-for-byte (as JSON values) with the audit files on disk before the resume; round 6: two workflows built up front in one program and run in sequence (Stage), per-cent signs on command lines; round 7: tags embedded in descendants compared with the ancestor file in every crash state of the tagger histories",
      text="Per sampled workflow/schedule every crash state is a split point; after each resumed history all audit files equal the reference lineage and embed the pre-existing ancestor records unchanged, which exercises scipipe's own write/read/embed/write path.",
      note="Crash states whose re-run does not complete are C03's business (F-C03-1) and skipped here. Tagging components only in the crash histories (tags they attach are ignored by the byte-identity clause). One defect (F-C10-1, torn audit file under concurrent taggers) was found here and repaired.", ref="9 C11"),
- "C17": dict(level="exploration", tech=TECH + "simulated FIFOs (blocking open on both ends, bounded pipe buffer with back-pressure, EOF at last close, EPIPE) under the seeded scheduler; payload vs pipe capacity and producer/consumer durations drawn from the tape; history run / run-again; round 5: idle-machine mode (clock advances only when nothing can run) in which the audit link is demanded although F-C17-1 is known; round 6: Go code opening FIFOs on the simulated pipes, a second round of the workflow inside one program",
+ "C17": dict(level="exploration", tech=TECH + "simulated FIFOs (blocking open on both ends, bounded pipe buffer with back-pressure, EOF at last close, EPIPE) under the seeded scheduler; payload vs pipe capacity and producer/consumer durations drawn from the tape; history run / run-again; round 5: idle-machine mode (clock advances only when nothing can run) in which the audit link is demanded although F-C17-1 is known; round 6: Go code opening FIFOs on the simulated pipes, a second round of the workflow inside one program; round 7: a joined in-port next to the streamed one; nothing may be left behind by the second run of a completed workflow",
      text="Byte-exact delivery, absence of file and FIFO at the return instant, audit link and the second run are checked per sampled schedule; two known findings (F-C17-1 audit link depends on bookkeeping order, F-C17-2 second run never terminates) are matched structurally and reported as KNOWN-FINDING.",
      note="FIFO semantics are a stub (validated against POSIX behaviour by reading, not by execution). One consumer per streaming port, slots >= 2n, as the statement requires. F-C17-2 masks the second-run clause for producers with only streamed outputs.", ref="9 C17"),
- "C18": dict(level="exploration", tech=TECH + "sub-stream lengths 0..beyond buffer (bufsize 1..3 and, in the thorough tier, 130/140 items against the default 128), separators, upstream timing from the tape; oracle on the argv the simulated shell received, resolved from the task cwd; round 6: two producers into one sub-stream (connections through OutPort.To), outputs named after the joined port, a parameter port next to a joined port",
+ "C18": dict(level="exploration", tech=TECH + "sub-stream lengths 0..beyond buffer (bufsize 1..3 and, in the thorough tier, 130/140 items against the default 128), separators, upstream timing from the tape; oracle on the argv the simulated shell received, resolved from the task cwd; round 6: two producers into one sub-stream (connections through OutPort.To), outputs named after the joined port, a parameter port next to a joined port; round 7: the carrier of a sub-stream passes a tagging component",
      text="Exactly-one task, member order/completeness/separator and audit Upstream keys are checked for each sampled (length, separator, bufsize, schedule).",
      note="Members relative, in sub-directories and absolute; two joined ports; two members from one upstream task; a second occurrence of the placeholder with a path modifier is checked for one entry per member in order (a modified member need not resolve).", ref="9 C18"),
- "C19": dict(level="exploration", tech=TECH + "each bundled component in a small generated workflow; map-iteration order (the combinators' head port), sender-goroutine interleavings and lock-step reads decided by the tape; oracles = Cartesian product / predicate filter / line conservation / arrival-order concatenation / independent glob; round 5: mixed tagged/untagged Concatenator inputs, FileGlobber emission order with 1-3 patterns, FileCombinator arrival order; round 6: a FileSource path without a file",
+ "C19": dict(level="exploration", tech=TECH + "each bundled component in a small generated workflow; map-iteration order (the combinators' head port), sender-goroutine interleavings and lock-step reads decided by the tape; oracles = Cartesian product / predicate filter / line conservation / arrival-order concatenation / independent glob; round 5: mixed tagged/untagged Concatenator inputs, FileGlobber emission order with 1-3 patterns, FileCombinator arrival order; round 6: a FileSource path without a file; round 7: large splitter inputs, the globber's second round, a ParamCombinator whose ports share one source",
      text="Schedule- and map-order-sensitive behaviour of the components is explored per sampled schedule; their input-space claims (all file lengths x split sizes, all glob patterns) are only sampled.",
      note="Ports of a combinator that share one upstream are limited to stream length <= bufsize, as the statement says. os/exec pipes are modelled (child goroutine, 64 KiB pipe, Wait closes the read end).", ref="9 C19"),
- "C12": dict(level="exploration", tech=TECH + "race-instrumented build (rewriter -race: map operations, struct fields through pointers, json object graphs) + in-simulator vector-clock happens-before checker with edges only from the simulated go/channel/close/mutex/WaitGroup operations (Go memory model); round 5: the bundled components, a second workflow created and run concurrently, nested workflows; round 6: indexed slice elements tracked, two gathering components side by side",
+ "C12": dict(level="exploration", tech=TECH + "race-instrumented build (rewriter -race: map operations, struct fields through pointers, json object graphs) + in-simulator vector-clock happens-before checker with edges only from the simulated go/channel/close/mutex/WaitGroup operations (Go memory model); round 5: the bundled components, a second workflow created and run concurrently, nested workflows; round 6: indexed slice elements tracked, two gathering components side by side; round 7: one file entering through two FileSources, one branch tagging it in place",
      text="Each simulated schedule is a legal execution and the edge set equals the memory model's, so every reported pair is a race Go's detector would report on that execution; untracked locations (locals shared through explicit pointers, slice elements touched only by range/append/copy) can only be missed; locals captured by function literals, loop variables and indexed slice elements are tracked. One known finding (F-C12-1, unsynchronised Tags map of shared audit records) is matched by its write site and reported as KNOWN-FINDING; one race (F-C12-2) was repaired.",
      note="Go's own race detector cannot be used under the cooperative scheduler (its hand-offs would order everything). Logging at error level. The behavioural 'half-done' clause is covered through the race reports only.", ref="9 C12"),
- "C20": dict(level="exploration", tech=TECH + "audit trees produced by simulated runs with clock granularity 1ns/1ms/15ms and resumed histories (RunTo+Run with a time-zone change, kill at a crash state + cleanup + re-run); converted by the REAL scipipe CLI built from /repo; generated Bash script executed by the real bash with a native twin of the workload command; round 5: tasks identified by process + exact command in the listings, records without OutFiles (older version) in resumed histories",
+ "C20": dict(level="exploration", tech=TECH + "audit trees produced by simulated runs with clock granularity 1ns/1ms/15ms and resumed histories (RunTo+Run with a time-zone change, kill at a crash state + cleanup + re-run); converted by the REAL scipipe CLI built from /repo; generated Bash script executed by the real bash with a native twin of the workload command; round 5: tasks identified by process + exact command in the listings, records without OutFiles (older version) in resumed histories; round 7: per-cent signs on command lines; the history of two programs within one second always runs under a coarse clock (found F-C20-3, fixed a3d1b02; crypto/rand simulated)",
      text="The converter is a pure function and runs natively; simulation supplies the clock- and history-dependent inputs (shared start times, zero-time sources, shared ancestors, records loaded from disk); one case in six converts a directly generated audit tree instead (listings only). Listing completeness/uniqueness/order and byte-identical reproduction are checked per case. Two defects (F-C20-1, F-C20-2) were repaired.",
      note="Native execution of the CLI and bash makes cases ~100x slower than pure simulation. Workflows keep their files in the working directory, as the statement requires.", ref="9 C20"),
- "C16": dict(level="exploration", tech=TECH + "generated graphs with one port left unconnected; RunTo/RunToRegex/RunToProcs with tape-chosen targets; oracle = reference closure vs execution trace; round 5: every script the program starts is recorded (CommandToParams sources in the graphs count as commands), RunTo* with an empty target set; round 6: an unconnected port inside a RunTo closure, a CommandToParams component as RunTo target",
+ "C16": dict(level="exploration", tech=TECH + "generated graphs with one port left unconnected; RunTo/RunToRegex/RunToProcs with tape-chosen targets; oracle = reference closure vs execution trace; round 5: every script the program starts is recorded (CommandToParams sources in the graphs count as commands), RunTo* with an empty target set; round 6: an unconnected port inside a RunTo closure, a CommandToParams component as RunTo target; round 7: several processes without out-ports as RunTo targets, dotted process names",
      text="Refusal (exit!=0, empty trace) for unconnected ports and exact closure execution for RunTo are checked on sampled graphs and schedules.",
      note="One genuine defect (F-C16-1, fatal recursion with FromStr feeders) was repaired.", ref="9 C16"),
 }
